@@ -44,7 +44,7 @@ IndInit ==
   /\ dup \in BOOLEAN
   /\ IndInv
 
-NextB == \E g \in Inst : \/ NextU32(g) \/ NextU64(g)
+NextB == \E g \in Inst : \/ NextU32(g) \/ NextU64(g) \/ SetRounds(g)
                          \/ \E n \in FillLens : FillB(g, n)
                          \/ \E h \in Inst : Clone(g, h) \/ CloneFrom(g, h)
 
